@@ -304,6 +304,12 @@ pub fn campaigns(ctx: &Ctx) -> Stats {
         let cfg = cfg_for(t, exact);
         st.merge(ctx.run_prop(name, total / 2, move || recipe_strategy(len), move |r| Some(Case9::H(HistCase { oracle: "c09".into(), hist: elaborate(&cfg, r) }))));
     }
+    for (name, p) in [("programs-with-large-dimensions", Profile::LargeDims), ("programs-with-wide-magnitudes", Profile::WideMagnitudes)] {
+        let cfg = cfg_for(t, false).with_profile(p, t == Tier::Thorough, crate::exec::IS_F32);
+        st.merge(ctx.run_prop(name, profile_total(t, p), move || recipe_strategy(len), move |r| Some(Case9::H(HistCase { oracle: "c09".into(), hist: elaborate(&cfg, r) }))));
+        let cfg = cfg_for(t, false).with_profile(p, t == Tier::Thorough, crate::exec::IS_F32);
+        st.merge(ctx.run_prop(&format!("untracked-operands-as-constants-{}", &name[14..]), profile_total(t, p) / 2, move || recipe_strategy(len), move |r| Some(Case9::K(ConstCase { base: elaborate(&cfg, r) }))));
+    }
     // untracked operand == constant (metamorphic)
     for (name, exact) in [("untracked-operands-as-constants-exact", true), ("untracked-operands-as-constants-mixed", false)] {
         use Kind::*;
